@@ -425,6 +425,8 @@ class Ref:
         def targets(con):
             return set(con.get("factors") or [con.get("factor")])
         for con, windows in Ci["checks"]:
+            if con["kind"] in ("sequential", "latin"):
+                self.amb("order-constraint-in-member-block")     # does the cycle restart with every inner run?
             if con["kind"] != "exclude" and targets(con) & oc:
                 self.amb("constraint-on-sustained-factor")      # per trial or per group?  the documentation does not say
             C["checks"].append((con, [(g * Ti + lo, g * Ti + hi) for g in range(To) for lo, hi in windows]))
